@@ -6,3 +6,4 @@ extern void verif_sched_enable(int n, uint64_t seed, uint64_t stride, const char
 extern void verif_sched_register(int id);
 extern void verif_sched_done(void);
 extern void verif_yield(int point);
+extern void verif_sched_note(const char *txt);
